@@ -8,9 +8,50 @@ import z3
 STATS = {'z3_calls': 0, 'cvc5_calls': 0, 'z3_secs': 0.0, 'cvc5_secs': 0.0}
 
 
+def expand_finite(t, consts, cache=None):
+    """finite-scope mode: replace quantifiers over the enumeration sort of references by explicit conjunctions/disjunctions"""
+    if cache is None:
+        cache = {}
+    k = t.get_id()
+    if k in cache:
+        return cache[k]
+    if z3.is_quantifier(t):
+        n = t.num_vars()
+        srt = consts[0].sort()
+        body = t.body()
+        idx = [i for i in range(n) if t.var_sort(i) == srt]
+        if len(idx) == n:
+            import itertools
+            insts = []
+            for combo in itertools.product(consts, repeat=n):
+                insts.append(expand_finite(z3.substitute_vars(body, *reversed(combo)), consts, cache))
+            r = z3.And(insts) if t.is_forall() else z3.Or(insts)
+        else:
+            r = t
+        cache[k] = r
+        return r
+    if z3.is_app(t) and t.num_args() > 0:
+        ch = [expand_finite(c, consts, cache) for c in t.children()]
+        try:
+            r = t.decl()(*ch)
+        except Exception:
+            r = t
+        cache[k] = r
+        return r
+    cache[k] = t
+    return t
+
+
 def prove(assumptions, goal, opts):
     """returns (verdict, backend, secs, model) with verdict in unsat(sat = counter-model)/unknown"""
     t0 = time.time()
+    if opts.get('finite_refs'):
+        from . import core as _core
+        consts = _core._REF_SORT[0][1]
+        if consts is not None:
+            cache = {}
+            assumptions = [expand_finite(a, consts, cache) for a in assumptions]
+            goal = expand_finite(goal, consts, cache)
     s = z3.Solver()
     s.set('timeout', int(opts.get('timeout_ms', 10000)))
     for a in assumptions:
